@@ -240,9 +240,10 @@ type gen struct {
 	withAuth  bool
 	withStake bool
 	flags     forkFlags
-	pre002    bool // the searcher also visits heights before Proposal002 (balances are not journaled there)
-	forceDev  bool // dev schedule, every proposal on (blocks that are executed concurrently share the global fork configuration)
-	authNonce int  // predicted nonce of authority b30
+	pre002    bool      // the searcher also visits heights before Proposal002 (balances are not journaled there)
+	forceDev  bool      // dev schedule, every proposal on
+	forceCfg  *blockCfg // exactly this configuration (blocks that are executed concurrently share the global fork configuration)
+	authNonce int       // predicted nonce of authority b30
 }
 
 func newGen(r *hx.Rng, st *stats) *gen { return &gen{r: r, st: st} }
@@ -253,7 +254,9 @@ var valuePool = []int{0, 0, 0, 1, 1, 2, 7, 49, 50, 51, 999, 1000, 1001, 5000}
 func (g *gen) block() *block {
 	r := g.r
 	cfg := blockCfg{p013: true, p007: true, cbn: true}
-	if g.forceDev {
+	if g.forceCfg != nil {
+		cfg = *g.forceCfg
+	} else if g.forceDev {
 		// nothing to choose
 	} else if r.Chance(9, 20) {
 		// a real fork schedule (mainnet / robin) at a height on either side of a proposal the C12 path reads
@@ -299,7 +302,7 @@ func (g *gen) block() *block {
 		{"e", 30, r.Pick(0, 5)},
 	}
 	b.accounts = append(b.accounts, precAccounts()...)
-	if cfg.sched == "" && !g.forceDev && r.Chance(1, 3) {
+	if cfg.sched == "" && !g.forceDev && g.forceCfg == nil && r.Chance(1, 3) {
 		// this block goes through the unmodified VMExecutor.Execute: one origin (the loop sorts by source),
 		// Proposal007 on, enough balance for gasLimit*gasPrice
 		b.real = true
